@@ -48,7 +48,11 @@ StrChunks(len, tag) ==
     ELSE <<[t |-> "b", v |-> <<254, len % 256, (len \div 256) % 256, (len \div 65536) % 256>>],
            [t |-> "p", len |-> len, tag |-> tag], [t |-> "z", n |-> (4 - (len % 4)) % 4]>>
 
-Flat(ss) == LET RECURSIVE F(_) F(k) == IF k > Len(ss) THEN <<>> ELSE ss[k] \o F(k + 1) IN F(1)
+\* concatenation of a sequence of sequences, by halves (depth log n: a vector of a thousand items is one message too)
+Flat(ss) == LET RECURSIVE F(_, _)
+                F(lo, hi) == IF lo > hi THEN <<>> ELSE IF lo = hi THEN ss[lo]
+                             ELSE LET mid == (lo + hi) \div 2 IN F(lo, mid) \o F(mid + 1, hi)
+            IN F(1, Len(ss))
 
 Present(fd, fv) == fv.k # "absent" /\ (fd.kind = "true" => fv.b)
 DataFields(L) == SelectSeq(L, LAMBDA fd : fd.kind # "flags")
@@ -94,7 +98,10 @@ TooLarge(fv) ==
 
 ChunkLen(c) ==
   CASE c.t = "w" -> 4 [] c.t = "q" -> 8 [] c.t = "b" -> Len(c.v) [] c.t = "p" -> c.len [] c.t = "z" -> c.n [] c.t = "be" -> c.len
-ImageLen(img) == LET RECURSIVE S(_) S(k) == IF k > Len(img) THEN 0 ELSE ChunkLen(img[k]) + S(k + 1) IN S(1)
+ImageLen(img) == LET RECURSIVE S(_, _)
+                     S(lo, hi) == IF lo > hi THEN 0 ELSE IF lo = hi THEN ChunkLen(img[lo])
+                                  ELSE LET mid == (lo + hi) \div 2 IN S(lo, mid) + S(mid + 1, hi)
+                 IN S(1, Len(img))
 
 (* ---- what "the same value" means (C01): group rule ---- *)
 \* a group of conditional fields on one bit is present iff at least one member is present; the
